@@ -410,6 +410,7 @@ var kernelNatives = map[string]any{
 	"VerifKernelPropertyOrder":             jsonschema.VerifKernelPropertyOrder,
 	"VerifKernelPropertyOrderAfterFailure": jsonschema.VerifKernelPropertyOrderAfterFailure,
 	"VerifKernelSchemaVersion":             jsonschema.VerifKernelSchemaVersion,
+	"VerifKernelUniqueMixedReps":           jsonschema.VerifKernelUniqueMixedReps,
 }
 
 func kernelArgsJSON(in []reflect.Value) string {
